@@ -134,6 +134,23 @@ def run(ctx, R, tier):
             problems.append('%s is not reachable from Renderer::on_start_processing (nor from the decoder loop)' % b.path)
         if b.path in proc and not in_osp:
             problems.append('%s is reached from Renderer::process only: commands would be applied mid-callback' % b.path)
+        # (audio side) polled on every callback: no decision in its function may exclude the read, except the absence
+        # of the optional component the command belongs to
+        if in_osp:
+            for g in range(b.n):
+                tg = b.blocks[g]['term']
+                if tg['k'] != 'switch' or b.blocks[g]['cleanup'] or g == bb or not b.dominates(g, bb):
+                    continue
+                excluded = [x for x in b.succ(g) if bb not in b.reachable([x])]
+                from ..rt import dead_end
+                excluded = [x for x in excluded if not dead_end(b, x)]
+                if not excluded:
+                    continue
+                cond = describe(b, tg['op'], depth=3, at=g)
+                if cond.startswith('discr(') and 'spatial_data' in cond:
+                    continue
+                problems.append('the read is skipped when `%s` takes another branch: a pending command stays unread and is applied late' % cond[:80])
+                break
         t = b.blocks[bb]['term']
         cp = callee_path(t)
         if cp == 'command::CommandReader::<T>::read':
